@@ -249,24 +249,14 @@ Proof. intros. unfold ghost. apply Inv_grun, Inv_init. Qed.
 Definition kind_ids (k : kind) : list Z := match k with PacketAck ids => ids | _ => [] end.
 Definition shown_acks (e : emit) : list Z := e_acks e ++ kind_ids (e_kind e).
 
-(* the shape on which _rewrite_packet_ack leaves message["Packets"] untouched although
-   the message is still sent: every block acknowledges an injected packet (or there is
-   none), and some appended ack survives *)
-Definition leak_shape (rev : tracker) (m : rmsg) : Prop :=
-  match r_kind m with
-  | PacketAck ids => rewrite_acks rev ids = [] /\ rewrite_acks rev (r_acks m) <> [] /\ ids <> []
-  | _ => False
-  end.
-
 Definition has_source (rev : tracker) (m : rmsg) (a : Z) : Prop :=
   exists w, In w (all_acks m) /\ was_injected rev w = false /\ orig rev w = Some a.
 
 Lemma send_forward_sources : forall st m e a,
-  ~ leak_shape (rev_tr st (r_dir m)) m ->
   In e (snd (send_forward st m)) -> In a (shown_acks e) ->
   e_dir e = r_dir m /\ e_syn e = false /\ has_source (rev_tr st (r_dir m)) m a.
 Proof.
-  intros st m e a Hl He Ha. unfold send_forward in He. unfold leak_shape in Hl.
+  intros st m e a He Ha. unfold send_forward in He.
   set (rev := rev_tr st (r_dir m)) in *.
   assert (Hacks : forall x, In x (rewrite_acks rev (r_acks m)) -> has_source rev m x).
   { intros x Hx. apply rewrite_acks_In in Hx as (w & Hw & H1 & H2).
@@ -279,9 +269,7 @@ Proof.
     destruct (rewrite_acks rev ids) as [|n nb] eqn:N.
     + destruct (rewrite_acks rev (r_acks m)) as [|x xs] eqn:A; cbn [snd] in He; [destruct He|].
       destruct He as [<-|[]]. unfold shown_acks in Ha. cbn [e_acks e_kind kind_ids e_dir e_syn] in *.
-      destruct ids as [|i ids'].
-      * rewrite app_nil_r in Ha. auto.
-      * exfalso. apply Hl. repeat split; auto; discriminate.
+      rewrite app_nil_r in Ha. auto.
     + cbn [snd] in He. destruct He as [<-|[]]. unfold shown_acks in Ha.
       cbn [e_acks e_kind kind_ids e_dir e_syn] in *.
       apply in_app_or in Ha as [Ha|Ha]; auto.
@@ -801,19 +789,18 @@ Qed.
 Lemma recv_sources : forall m e pre msg em a,
   let s := reach m e pre in
   let G := ghost m (inv_dir (r_dir msg)) pre in
-  ~ leak_shape (tr G) msg ->
   In em (snd (fst (step s (Recv msg)))) -> In a (shown_acks em) ->
   e_dir em = r_dir msg /\ e_syn em = false /\
   exists w, In w (all_acks msg) /\ source_ok G w a.
 Proof.
-  intros m e pre msg em a s G Hl He Ha. cbn [step] in He.
+  intros m e pre msg em a s G He Ha. cbn [step] in He.
   destruct (collect_acks s msg) as [st1 ss] eqn:C.
   assert (Hrev : rev_tr st1 (r_dir msg) = tr G).
   { unfold rev_tr. replace st1 with (fst (collect_acks s msg)) by (rewrite C; reflexivity).
     rewrite collect_acks_trackers. apply reach_tracker. }
   destruct (send_forward st1 msg) as [st2 es] eqn:S. cbn [fst snd] in He.
   assert (X := send_forward_sources st1 msg em a). rewrite Hrev, S in X. cbn [snd] in X.
-  destruct (X Hl He Ha) as (A & B & (w & Hw & H1 & H2)).
+  destruct (X He Ha) as (A & B & (w & Hw & H1 & H2)).
   split; auto. split; auto. exists w. split; auto.
   apply source_ok_intro; auto. apply ghost_Inv.
 Qed.
@@ -843,7 +830,6 @@ Qed.
    non-injected acks, in order; a PacketAck with nothing left is not forwarded *)
 Lemma send_forward_exact : forall st m,
   let rev := rev_tr st (r_dir m) in
-  ~ leak_shape rev m ->
   match snd (send_forward st m) with
   | [] => exists ids, r_kind m = PacketAck ids /\ rewrite_acks rev ids = [] /\ rewrite_acks rev (r_acks m) = []
   | [e] => e_acks e = rewrite_acks rev (r_acks m) /\
@@ -853,16 +839,47 @@ Lemma send_forward_exact : forall st m,
   | _ => False
   end.
 Proof.
-  intros st m rev Hl. unfold send_forward. fold rev. unfold leak_shape in Hl.
+  intros st m rev. unfold send_forward. fold rev.
   destruct (r_kind m) as [|ids|o] eqn:K; cbn [snd kind_ids].
   - repeat split; auto.
   - destruct (rewrite_acks rev ids) as [|n nb] eqn:N.
     + destruct (rewrite_acks rev (r_acks m)) as [|x xs] eqn:A; cbn [snd].
       * exists ids. auto.
-      * destruct ids as [|i ids']; [cbn; repeat split; auto|].
-        exfalso. apply Hl. repeat split; auto; discriminate.
+      * cbn. repeat split; auto.
     + cbn [snd]. repeat split; auto.
   - repeat split; auto.
+Qed.
+
+(* a PacketAck that consists only of acks for injected packets and has no surviving
+   appended ack is not forwarded at all; and nothing else is ever withheld *)
+Lemma send_forward_silent_iff : forall st m,
+  let rev := rev_tr st (r_dir m) in
+  snd (send_forward st m) = [] <->
+  exists ids, r_kind m = PacketAck ids /\ rewrite_acks rev ids = [] /\ rewrite_acks rev (r_acks m) = [].
+Proof.
+  intros st m rev. unfold send_forward. fold rev.
+  destruct (r_kind m) as [|ids|o] eqn:K; cbn [snd].
+  - split; [discriminate|intros (i & H & _); discriminate].
+  - destruct (rewrite_acks rev ids) as [|n nb] eqn:N.
+    + destruct (rewrite_acks rev (r_acks m)) as [|x xs] eqn:A; cbn [snd].
+      * split; auto. intros _. exists ids. auto.
+      * split; [discriminate|]. intros (i & H & _ & H2). discriminate.
+    + cbn [snd]. split; [discriminate|]. intros (i & H & H1 & _). injection H as <-. rewrite N in H1. discriminate.
+  - split; [discriminate|intros (i & H & _); discriminate].
+Qed.
+
+(* inj_acks_hidden in list form: an ack for a wire ID still in the injection window never
+   contributes to the rewritten list *)
+Lemma rewrite_acks_hides : forall rev l a,
+  In a (rewrite_acks rev l) -> exists w, In w l /\ was_injected rev w = false /\ orig rev w = Some a.
+Proof. intros rev l a H. apply rewrite_acks_In. exact H. Qed.
+
+Lemma rewrite_acks_all_injected : forall rev l,
+  (forall w, In w l -> was_injected rev w = true) -> rewrite_acks rev l = [].
+Proof.
+  intros rev l H. rewrite rewrite_acks_map.
+  induction l as [|w l IH]; [reflexivity|]. cbn [filter].
+  rewrite (H w) by (left; reflexivity). cbn [negb]. apply IH. intros x Hx. apply H. right. exact Hx.
 Qed.
 
 (* completion: every ack for a queued key completes it *)
@@ -983,4 +1000,386 @@ Proof.
   destruct (Hab Ha) as (Hj & _).
   apply (fwd_in_ops d pre a).
   exact (orig_was_sent 0 m (flat_map (ops_of d) pre) w a Hs Hj Ha Ho).
+Qed.
+
+(* ------------------------------------------------------------------ *)
+(* retry budget as a trace property *)
+
+Definition is_resend (k : dir * Z) (e : emit) : bool :=
+  e_syn e && e_resent e && key_eqb (e_dir e, e_id e) k.
+Definition is_timeout (k : dir * Z) (s : signal) : bool :=
+  match s with TimedOut d id => key_eqb (d, id) k | Completed _ _ => false end.
+
+Definition cnt {A} (f : A -> bool) (l : list A) : Z := Z.of_nat (length (filter f l)).
+
+Lemma cnt_nil : forall A (f : A -> bool), cnt f [] = 0.
+Proof. reflexivity. Qed.
+
+Lemma cnt_cons : forall A (f : A -> bool) x l, cnt f (x :: l) = (if f x then 1 else 0) + cnt f l.
+Proof. intros. unfold cnt. cbn [filter]. destruct (f x); cbn [length]; lia. Qed.
+
+Lemma cnt_app : forall A (f : A -> bool) a b, cnt f (a ++ b) = cnt f a + cnt f b.
+Proof. intros. unfold cnt. rewrite filter_app, app_length. lia. Qed.
+
+Lemma cnt_none : forall A (f : A -> bool) l, (forall x, In x l -> f x = false) -> cnt f l = 0.
+Proof.
+  induction l as [|x l IH]; intros H; [reflexivity|]. rewrite cnt_cons, IH by (intros y Hy; apply H; right; exact Hy).
+  rewrite (H x) by (left; reflexivity). lia.
+Qed.
+
+Lemma cnt_map : forall A B (g : A -> B) (h : B -> bool) (h' : A -> bool) l,
+  (forall p, In p l -> h (g p) = h' p) -> cnt h (map g l) = cnt h' l.
+Proof.
+  induction l as [|x l IH]; intros H; [reflexivity|]. cbn [map]. rewrite !cnt_cons.
+  rewrite (H x) by (left; reflexivity). rewrite IH by (intros p Hp; apply H; right; exact Hp). reflexivity.
+Qed.
+
+(* in a table with one entry per key, the entry of k is selected at most once *)
+Lemma cnt_key_filter : forall (f : (dir * Z) * rinfo -> bool) u k ri,
+  NoDup (keys u) -> In (k, ri) u ->
+  cnt (fun p => key_eqb (fst p) k) (filter f u) = if f (k, ri) then 1 else 0.
+Proof.
+  induction u as [|[k0 r0] t IH]; intros k ri Hn Hi; [destruct Hi|].
+  cbn [keys map fst] in Hn. inversion Hn as [|? ? H1 H2]; subst.
+  assert (Hnone : forall kk, ~ In kk (keys t) -> cnt (fun p => key_eqb (fst p) kk) (filter f t) = 0).
+  { intros kk Hk. apply cnt_none. intros [k1 r1] Hx. apply filter_In in Hx as (Hx & _). cbn [fst].
+    destruct (key_eqb k1 kk) eqn:E; auto. apply key_eqb_eq in E. subst. exfalso. apply Hk.
+    unfold keys. apply in_map_iff. exists (kk, r1). auto. }
+  destruct Hi as [Hi|Hi].
+  - injection Hi as -> ->. cbn [filter]. destruct (f (k, ri)).
+    + rewrite cnt_cons. cbn [fst]. rewrite (proj2 (key_eqb_eq k k) eq_refl). rewrite Hnone by exact H1. lia.
+    + apply Hnone, H1.
+  - assert (Hne : key_eqb k0 k = false).
+    { destruct (key_eqb k0 k) eqn:E; auto. apply key_eqb_eq in E. subst. exfalso. apply H1.
+      unfold keys. apply in_map_iff. exists (k, ri). auto. }
+    cbn [filter]. destruct (f (k0, r0)).
+    + rewrite cnt_cons. cbn [fst]. rewrite Hne. rewrite (IH k ri H2 Hi). lia.
+    + apply (IH k ri H2 Hi).
+Qed.
+
+(* does this event acknowledge the proxy's packet k ? *)
+Definition acks_key (ev : event) (k : dir * Z) : bool :=
+  match ev with
+  | Recv m | RecvDrop m => dir_eqb (inv_dir (r_dir m)) (fst k) && memz (snd k) (all_acks m)
+  | _ => false
+  end.
+
+Lemma dict_del_keeps : forall u k k' ri, In (k, ri) u -> k <> k' -> In (k, ri) (dict_del u k').
+Proof.
+  intros u k k' ri Hi Hne. unfold dict_del. apply filter_In. split; auto. cbn [fst].
+  destruct (key_eqb k k') eqn:E; auto. apply key_eqb_eq in E. contradiction.
+Qed.
+
+Lemma collect_keeps : forall acks u d k ri,
+  In (k, ri) u -> dir_eqb d (fst k) && memz (snd k) acks = false ->
+  In (k, ri) (fst (collect u d acks)).
+Proof.
+  induction acks as [|a t IH]; intros u d k ri Hi Hno; cbn [collect fst]; [exact Hi|].
+  assert (Hne : k <> (d, a)).
+  { intros ->. cbn [fst snd] in Hno. rewrite dir_eqb_refl in Hno. cbn [andb memz existsb] in Hno.
+    rewrite Z.eqb_refl in Hno. discriminate. }
+  assert (Hno' : dir_eqb d (fst k) && memz (snd k) t = false).
+  { destruct (dir_eqb d (fst k)); auto. cbn [andb] in *. cbn [memz existsb] in Hno.
+    apply orb_false_iff in Hno. apply Hno. }
+  destruct (dict_has u (d, a)).
+  - specialize (IH (dict_del u (d, a)) d k ri (dict_del_keeps u k (d, a) ri Hi Hne) Hno').
+    destruct (collect (dict_del u (d, a)) d t). exact IH.
+  - apply IH; auto.
+Qed.
+
+Lemma dict_set_keeps : forall u k v p, In p u -> fst p <> k -> In p (dict_set u k v).
+Proof.
+  induction u as [|[k0 v0] t IH]; intros k v p Hi Hne; [destruct Hi|]. cbn [dict_set].
+  destruct (key_eqb k0 k) eqn:E.
+  - destruct Hi as [<-|Hi]; [|right; exact Hi]. apply key_eqb_eq in E. cbn in Hne. contradiction.
+  - destruct Hi as [<-|Hi]; [left; reflexivity|right; apply IH; auto].
+Qed.
+
+(* emissions of a step that is not a Tick are never resends of the proxy *)
+Lemma send_injected_no_resend : forall st d rel k0 k e,
+  In e (snd (send_injected st d rel k0)) -> is_resend k e = false.
+Proof.
+  intros st d rel k0 k e He. rewrite (send_injected_emits _ _ _ _ _ He). reflexivity.
+Qed.
+
+Lemma send_forward_no_resend : forall st m k e, In e (snd (send_forward st m)) -> is_resend k e = false.
+Proof.
+  intros st m k e He. assert (X := send_forward_exact st m).
+  destruct (snd (send_forward st m)) as [|e0 [|e1 l]]; [destruct He| |destruct X].
+  destruct He as [<-|[]]. destruct X as (_ & _ & _ & _ & _ & _ & S). unfold is_resend. rewrite S. reflexivity.
+Qed.
+
+Lemma drop_message_no_resend : forall st m k e, In e (snd (drop_message st m)) -> is_resend k e = false.
+Proof.
+  intros st m k e He. unfold drop_message in He.
+  set (d := r_dir m) in *. set (st1 := set_fwd st d (mark_dropped (fwd_tr st d) (r_pid m))) in *.
+  destruct (r_rel m).
+  - destruct (send_injected st1 (inv_dir d) false (PacketAck [r_pid m])) as [st2 e1] eqn:S.
+    assert (H1 : forall x, In x e1 -> is_resend k x = false).
+    { intros x Hx. apply (send_injected_no_resend st1 (inv_dir d) false (PacketAck [r_pid m])). rewrite S. exact Hx. }
+    destruct (rewrite_acks (rev_tr st2 d) (r_acks m)); cbn [snd] in He; auto.
+    apply in_app_or in He as [He|[<-|[]]]; auto.
+  - destruct (rewrite_acks (rev_tr st1 d) (r_acks m)); cbn [snd] in He; [destruct He|].
+    destruct He as [<-|[]]. reflexivity.
+Qed.
+
+(* the unacked table after send_injected / drop_message keeps every old entry *)
+Lemma send_injected_keeps : forall st d rel k0 p,
+  UInv st -> In p (unacked st) -> In p (unacked (fst (send_injected st d rel k0))).
+Proof.
+  intros st d rel k0 p (Hn & He) Hi. unfold send_injected.
+  destruct (gen (fwd_tr st d)) as [t' id] eqn:G. cbn [fst].
+  assert (Hid : id = pbase (fwd_tr st d) + 1) by (destruct (gen_pbase (fwd_tr st d)) as (_ & X); rewrite G in X; exact X).
+  destruct rel; [|rewrite unacked_set_fwd; exact Hi].
+  unfold set_unacked. cbn [unacked]. rewrite unacked_set_fwd. apply dict_set_keeps; auto.
+  intros E. destruct p as [[d0 i0] r0]. cbn in E. injection E as -> ->.
+  specialize (He _ Hi). cbn in He. lia.
+Qed.
+
+Lemma drop_message_keeps : forall st m p,
+  UInv st -> In p (unacked st) -> In p (unacked (fst (drop_message st m))).
+Proof.
+  intros st m p HU Hi. unfold drop_message.
+  set (d := r_dir m). set (st1 := set_fwd st d (mark_dropped (fwd_tr st d) (r_pid m))).
+  assert (H1 : UInv st1 /\ In p (unacked st1)).
+  { split; [|unfold st1; rewrite unacked_set_fwd; exact Hi].
+    destruct HU as (Hn & He). split.
+    - unfold st1. rewrite unacked_set_fwd. exact Hn.
+    - intros q Hq. unfold st1 in Hq. rewrite unacked_set_fwd in Hq. apply (entry_ok_mono st); auto.
+      intros d'. unfold st1. destruct d, d'; cbn [fwd_tr set_fwd t_in t_out]; try lia;
+        unfold mark_dropped; destruct (memz _ _); cbn [pbase]; lia. }
+  destruct H1 as (HU1 & Hi1).
+  destruct (r_rel m).
+  - assert (X := send_injected_keeps st1 (inv_dir d) false (PacketAck [r_pid m]) p HU1 Hi1).
+    destruct (send_injected st1 (inv_dir d) false (PacketAck [r_pid m])) as [st2 e1]. cbn [fst] in X.
+    destruct (rewrite_acks (rev_tr st2 d) (r_acks m)); exact X.
+  - destruct (rewrite_acks (rev_tr st1 d) (r_acks m)); exact Hi1.
+Qed.
+
+(* one step seen from a queued packet k that the event does not acknowledge *)
+Lemma budget_step : forall st ev k ri,
+  UInv st -> In (k, ri) (unacked st) -> acks_key ev k = false ->
+  let '(st', es, ss) := step st ev in
+  (exists ri', In (k, ri') (unacked st') /\ ri_msg ri' = ri_msg ri /\
+               cnt (is_resend k) es = ri_tries ri - ri_tries ri' /\ cnt (is_timeout k) ss = 0) \/
+  (~ In k (keys (unacked st')) /\ ri_tries ri = 1 /\
+   cnt (is_resend k) es = 0 /\ cnt (is_timeout k) ss = 1).
+Proof.
+  intros st ev k ri HU Hi Hno.
+  assert (Hsig : forall m, acks_key (Recv m) k = false ->
+            cnt (is_timeout k) (snd (collect (unacked st) (inv_dir (r_dir m)) (all_acks m))) = 0).
+  { intros m _. apply cnt_none. intros s Hs.
+    destruct (collect_signals _ _ _ _ (proj1 HU) Hs) as (a & -> & _). reflexivity. }
+  destruct ev as [m|m|d rel k0|dt]; cbn [step].
+  - (* Recv *)
+    assert (Hk := collect_keeps (all_acks m) (unacked st) (inv_dir (r_dir m)) k ri Hi Hno).
+    specialize (Hsig m Hno). unfold collect_acks.
+    destruct (collect (unacked st) (inv_dir (r_dir m)) (all_acks m)) as [u ss]. cbn [fst snd] in *.
+    destruct (send_forward (set_unacked st u) m) as [st2 es] eqn:S.
+    left. exists ri. split.
+    + replace st2 with (fst (send_forward (set_unacked st u) m)) by (rewrite S; reflexivity).
+      rewrite unacked_send_forward. exact Hk.
+    + split; auto. split; [|exact Hsig].
+      rewrite cnt_none; [lia|]. intros e He. apply (send_forward_no_resend (set_unacked st u) m). rewrite S. exact He.
+  - (* RecvDrop *)
+    assert (Hk := collect_keeps (all_acks m) (unacked st) (inv_dir (r_dir m)) k ri Hi Hno).
+    specialize (Hsig m Hno).
+    assert (HU1 := UInv_collect_acks st m HU). rewrite <- unacked_collect_acks in Hk.
+    unfold collect_acks in *.
+    destruct (collect (unacked st) (inv_dir (r_dir m)) (all_acks m)) as [u ss]. cbn [fst snd] in *.
+    destruct (drop_message (set_unacked st u) m) as [st2 es] eqn:S.
+    left. exists ri. split.
+    + replace st2 with (fst (drop_message (set_unacked st u) m)) by (rewrite S; reflexivity).
+      apply drop_message_keeps; auto.
+    + split; auto. split; [|exact Hsig].
+      rewrite cnt_none; [lia|]. intros e He. apply (drop_message_no_resend (set_unacked st u) m). rewrite S. exact He.
+  - (* Inj *)
+    destruct (send_injected st d rel k0) as [st1 es] eqn:S.
+    left. exists ri. split.
+    + replace st1 with (fst (send_injected st d rel k0)) by (rewrite S; reflexivity).
+      apply send_injected_keeps; auto.
+    + split; auto. split; [|reflexivity].
+      rewrite cnt_none; [lia|]. intros e He. apply (send_injected_no_resend st d rel k0). rewrite S. exact He.
+  - (* Tick *)
+    assert (S := resend_spec (now st + dt) (every st) (unacked st)).
+    destruct (resend (now st + dt) (every st) (unacked st)) as [[u es] ss].
+    destruct S as (-> & -> & ->). cbn [unacked].
+    destruct HU as (Hn & He).
+    set (nw := now st + dt) in *. set (evy := every st) in *.
+    (* counts *)
+    assert (Hce : cnt (is_resend k)
+              (map (fun p => resent_of (ri_msg (snd p)))
+                 (filter (fun p => due nw evy (snd p) && negb (ri_tries (snd p) - 1 =? 0)) (unacked st))) =
+            if due nw evy ri && negb (ri_tries ri - 1 =? 0) then 1 else 0).
+    { rewrite (cnt_map _ _ _ (is_resend k) (fun p => key_eqb (fst p) k)).
+      - exact (cnt_key_filter (fun p => due nw evy (snd p) && negb (ri_tries (snd p) - 1 =? 0)) (unacked st) k ri Hn Hi).
+      - intros [[d0 i0] r0] Hp. apply filter_In in Hp as (Hp & _). specialize (He _ Hp). cbn in He.
+        destruct He as (A & B & _ & D & _). unfold is_resend, resent_of. cbn [e_syn e_resent e_dir e_id snd fst].
+        rewrite A, B, D. reflexivity. }
+    assert (Hcs : cnt (is_timeout k)
+              (map (fun p => TimedOut (fst (fst p)) (snd (fst p)))
+                 (filter (fun p => due nw evy (snd p) && (ri_tries (snd p) - 1 =? 0)) (unacked st))) =
+            if due nw evy ri && (ri_tries ri - 1 =? 0) then 1 else 0).
+    { rewrite (cnt_map _ _ _ (is_timeout k) (fun p => key_eqb (fst p) k)).
+      - exact (cnt_key_filter (fun p => due nw evy (snd p) && (ri_tries (snd p) - 1 =? 0)) (unacked st) k ri Hn Hi).
+      - intros [[d0 i0] r0] _. reflexivity. }
+    rewrite Hce, Hcs.
+    destruct (due nw evy ri) eqn:D; cbn [andb].
+    + destruct (ri_tries ri - 1 =? 0) eqn:T; cbn [negb].
+      * right. split; [|apply Z.eqb_eq in T; repeat split; lia].
+        intros Hin. unfold keys in Hin. apply in_map_iff in Hin as (p & Hpk & Hp).
+        apply in_flat_map in Hp as ([k1 r1] & Hin1 & Hp). cbn [snd fst] in Hp.
+        assert (k1 = k).
+        { destruct (due nw evy r1); [destruct (ri_tries r1 - 1 =? 0); [destruct Hp|]|]; destruct Hp as [<-|[]]; exact Hpk. }
+        subst k1.
+        assert (r1 = ri).
+        { clear - Hn Hi Hin1. induction (unacked st) as [|[k2 r2] t IH]; [destruct Hi|].
+          cbn [keys map fst] in Hn. inversion Hn as [|? ? H1 H2]; subst.
+          destruct Hi as [Hi|Hi], Hin1 as [Hj|Hj].
+          - congruence.
+          - injection Hi as -> ->. exfalso. apply H1. unfold keys. apply in_map_iff. exists (k, r1). auto.
+          - injection Hj as -> ->. exfalso. apply H1. unfold keys. apply in_map_iff. exists (k, ri). auto.
+          - apply IH; auto. }
+        subst r1. rewrite D, T in Hp. destruct Hp.
+      * left. exists (mkRI nw (ri_tries ri - 1) (ri_msg ri)). split.
+        -- apply in_flat_map. exists (k, ri). split; auto. cbn [snd fst]. rewrite D, T. left. reflexivity.
+        -- cbn [ri_tries ri_msg]. repeat split; lia.
+    + left. exists ri. split.
+      * apply in_flat_map. exists (k, ri). split; auto. cbn [snd]. rewrite D. left. reflexivity.
+      * repeat split; lia.
+Qed.
+
+Definition resends (k : dir * Z) (tr : list obs) : Z :=
+  fold_right (fun o acc => cnt (is_resend k) (snd (fst o)) + acc) 0 tr.
+Definition timeouts (k : dir * Z) (tr : list obs) : Z :=
+  fold_right (fun o acc => cnt (is_timeout k) (snd o) + acc) 0 tr.
+
+(* once gone, nothing more happens for k *)
+Lemma gone_quiet : forall post st k, UInv st -> gone st k ->
+  resends k (snd (run_trace st post)) = 0 /\ timeouts k (snd (run_trace st post)) = 0.
+Proof.
+  induction post as [|ev post IH]; intros st k HU Hg; [split; reflexivity|].
+  cbn [run_trace].
+  assert (HU' := UInv_step st ev ltac:(lia) HU). assert (Hg' := gone_step st ev k Hg).
+  assert (He : cnt (is_resend k) (snd (fst (step st ev))) = 0).
+  { apply cnt_none. intros e He. destruct ev as [m|m|d rel k0|dt].
+    - cbn [step] in He. destruct (collect_acks st m) as [st1 ss]. destruct (send_forward st1 m) as [st2 es] eqn:S.
+      cbn [fst snd] in He. apply (send_forward_no_resend st1 m). rewrite S. exact He.
+    - cbn [step] in He. destruct (collect_acks st m) as [st1 ss]. destruct (drop_message st1 m) as [st2 es] eqn:S.
+      cbn [fst snd] in He. apply (drop_message_no_resend st1 m). rewrite S. exact He.
+    - cbn [step] in He. destruct (send_injected st d rel k0) as [st1 es] eqn:S.
+      cbn [fst snd] in He. apply (send_injected_no_resend st d rel k0). rewrite S. exact He.
+    - destruct (tick_emissions st dt e HU He) as (Hk & _). unfold is_resend.
+      destruct (key_eqb (e_dir e, e_id e) k) eqn:E; [|apply andb_false_r].
+      apply key_eqb_eq in E. rewrite E in Hk. exfalso. apply (proj1 Hg), Hk. }
+  assert (Hs : cnt (is_timeout k) (snd (step st ev)) = 0).
+  { apply cnt_none. intros s Hs. destruct (signal_gone st ev s HU Hs) as (Hk & _).
+    destruct s as [d id|d id]; [reflexivity|]. cbn [is_timeout].
+    destruct (key_eqb (d, id) k) eqn:E; auto. apply key_eqb_eq in E. rewrite E in Hk. exfalso. apply (proj1 Hg), Hk. }
+  unfold next in HU', Hg'.
+  destruct (step st ev) as [[st1 es] ss]. cbn [fst snd] in *.
+  destruct (IH st1 k HU' Hg') as (I1 & I2).
+  destruct (run_trace st1 post) as [st2 tr]. cbn [snd fst] in *.
+  unfold resends, timeouts in *. cbn [fold_right snd fst]. rewrite I1, I2, He, Hs. split; reflexivity.
+Qed.
+
+(* THE retry budget: a queued packet with t tries left that nobody acknowledges is, over any
+   continuation, retransmitted (t - tries still left) times while queued; and once it has
+   left the queue it was retransmitted exactly t - 1 times and timed out exactly once *)
+Lemma budget_trace : forall post st k ri,
+  UInv st -> In (k, ri) (unacked st) -> (forall ev, In ev post -> acks_key ev k = false) ->
+  let '(st', tr) := run_trace st post in
+  (exists ri', In (k, ri') (unacked st') /\ resends k tr = ri_tries ri - ri_tries ri' /\ timeouts k tr = 0) \/
+  (~ In k (keys (unacked st')) /\ resends k tr = ri_tries ri - 1 /\ timeouts k tr = 1).
+Proof.
+  induction post as [|ev post IH]; intros st k ri HU Hi Hno; cbn [run_trace].
+  - left. exists ri. repeat split; auto. cbn. lia.
+  - assert (B := budget_step st ev k ri HU Hi (Hno ev (or_introl eq_refl))).
+    assert (HU' := UInv_step st ev ltac:(lia) HU).
+    assert (Hgs : forall s, In s (snd (step st ev)) -> is_timeout k s = true -> gone (next st ev) k).
+    { intros s Hs Ht. destruct (signal_gone st ev s HU Hs) as (_ & Hg).
+      destruct s as [d id|d id]; [discriminate|]. cbn [is_timeout] in Ht. apply key_eqb_eq in Ht. rewrite <- Ht. exact Hg. }
+    unfold next in HU', Hgs.
+    destruct (step st ev) as [[st1 es] ss]. cbn [fst snd] in *.
+    destruct B as [(ri' & Hi' & _ & Hc & Ht)|(Hgone & Ht1 & Hc & Ht)].
+    + specialize (IH st1 k ri' HU' Hi' (fun e He => Hno e (or_intror He))).
+      destruct (run_trace st1 post) as [st2 tr]. cbn [resends timeouts fold_right fst snd].
+      fold (resends k tr) (timeouts k tr).
+      destruct IH as [(r2 & H2 & R & T)|(G & R & T)]; [left; exists r2|right]; repeat split; auto; lia.
+    + assert (Hg : gone st1 k).
+      { (* some signal of this step is the timeout of k *)
+        assert (exists s, In s ss /\ is_timeout k s = true) as (s & Hs & Hts).
+        { clear - Ht. induction ss as [|s ss IH]; [cbn in Ht; lia|]. rewrite cnt_cons in Ht.
+          destruct (is_timeout k s) eqn:E; [exists s; split; [left; auto|auto]|].
+          destruct IH as (s' & A & B); [lia|]. exists s'. split; [right; auto|auto]. }
+        exact (Hgs s Hs Hts). }
+      destruct (gone_quiet post st1 k HU' Hg) as (Q1 & Q2).
+      assert (Hstay : ~ In k (keys (unacked (fst (run_trace st1 post))))).
+      { assert (X := gone_run post st1 k Hg). 
+        assert (E : fst (run_trace st1 post) = run_state st1 post).
+        { clear. revert st1. induction post as [|e post IH]; intros st1; [reflexivity|].
+          cbn [run_trace]. unfold run_state in *. cbn [fold_left].
+          destruct (step st1 e) as [[s1 es] ss] eqn:S. cbn [fst].
+          specialize (IH s1). destruct (run_trace s1 post) as [s2 tr]. cbn [fst] in *. exact IH. }
+        rewrite E. apply X. }
+      destruct (run_trace st1 post) as [st2 tr]. unfold resends, timeouts in *. cbn [fold_right fst snd] in *.
+      right. rewrite Q1, Q2. repeat split; auto; lia.
+Qed.
+
+(* from the injection itself: the packet goes out once, and if nobody acknowledges it, it is
+   retransmitted exactly 9 times and times out exactly once by the time it has left the queue *)
+Lemma inject_budget : forall m e pre d k0 post,
+  let s := reach m e pre in
+  let id := snd (gen (fwd_tr s d)) in
+  (forall ev, In ev post -> acks_key ev (d, id) = false) ->
+  let '(st', tr) := run_trace (next s (Inj d true k0)) post in
+  snd (fst (step s (Inj d true k0))) = [mkE d id true false [] k0 true] /\
+  ((exists ri', In ((d, id), ri') (unacked st') /\ resends (d, id) tr = TRIES - ri_tries ri' /\
+                1 <= ri_tries ri' /\ timeouts (d, id) tr = 0) \/
+   (~ In (d, id) (keys (unacked st')) /\ resends (d, id) tr = TRIES - 1 /\ timeouts (d, id) tr = 1)).
+Proof.
+  intros m e pre d k0 post s id Hno.
+  assert (HU : UInv s) by apply reach_UInv.
+  assert (HU1 := UInv_step s (Inj d true k0) ltac:(lia) HU).
+  assert (Hin : In ((d, id), mkRI (now s) TRIES (mkE d id true false [] k0 true)) (unacked (next s (Inj d true k0))) /\
+                snd (fst (step s (Inj d true k0))) = [mkE d id true false [] k0 true]).
+  { unfold next. cbn [step]. unfold send_injected. unfold id.
+    destruct (gen (fwd_tr s d)) as [t' i]. cbn [fst snd unacked set_unacked].
+    rewrite unacked_set_fwd, now_set_fwd. split; [|reflexivity].
+    clear. induction (unacked s) as [|[k1 v1] t IH]; cbn [dict_set]; [left; reflexivity|].
+    destruct (key_eqb k1 (d, i)); [left; reflexivity|right; exact IH]. }
+  destruct Hin as (Hin & Hem).
+  assert (B := budget_trace post (next s (Inj d true k0)) (d, id) _ HU1 Hin Hno).
+  assert (HUf : UInv (fst (run_trace (next s (Inj d true k0)) post))).
+  { assert (E : forall st, fst (run_trace st post) = run_state st post).
+    { clear. induction post as [|ev post IH]; intros st; [reflexivity|].
+      cbn [run_trace]. unfold run_state in *. cbn [fold_left].
+      destruct (step st ev) as [[s1 es] ss] eqn:S. cbn [fst].
+      specialize (IH s1). destruct (run_trace s1 post) as [s2 tr]. cbn [fst] in *. exact IH. }
+    rewrite E. apply UInv_run, HU1. }
+  destruct (run_trace (next s (Inj d true k0)) post) as [st' tr]. cbn [fst] in HUf.
+  split; [exact Hem|]. cbn [ri_tries] in B.
+  destruct B as [(ri' & H1 & H2 & H3)|B]; [left|right; exact B].
+  exists ri'. repeat split; auto.
+  destruct HUf as (_ & He). specialize (He _ H1). cbn in He. lia.
+Qed.
+
+(* ------------------------------------------------------------------ *)
+(* inj_acks_hidden, for every received packet in every state *)
+Lemma inj_acks_hidden : forall st msg,
+  let rev := rev_tr st (r_dir msg) in
+  (forall em a, In em (snd (send_forward st msg)) -> In a (shown_acks em) ->
+     exists w, In w (all_acks msg) /\ was_injected rev w = false /\ orig rev w = Some a) /\
+  (snd (send_forward st msg) = [] <->
+     exists ids, r_kind msg = PacketAck ids /\ rewrite_acks rev ids = [] /\ rewrite_acks rev (r_acks msg) = []) /\
+  (forall ids, r_kind msg = PacketAck ids ->
+     (forall w, In w (ids ++ r_acks msg) -> was_injected rev w = true) ->
+     snd (send_forward st msg) = []).
+Proof.
+  intros st msg rev. split; [|split].
+  - intros em a He Ha. destruct (send_forward_sources st msg em a He Ha) as (_ & _ & H). exact H.
+  - apply send_forward_silent_iff.
+  - intros ids K Hall. apply send_forward_silent_iff. exists ids. split; auto. split.
+    + apply rewrite_acks_all_injected. intros w Hw. apply Hall. apply in_or_app. left. exact Hw.
+    + apply rewrite_acks_all_injected. intros w Hw. apply Hall. apply in_or_app. right. exact Hw.
 Qed.
